@@ -151,6 +151,23 @@ func runC11(w *W) {
 			full := w.Thorough() || ti == 0 || ti >= len(times)-2 || ti == d.J%len(times)
 			ec := l.GetEightChar()
 			if full {
+				// ---- 2b. twin entry points: package-level constructors vs the accessor of the same name
+				if msg, p := try(func() {
+					ne("NewLunarFromSolar vs Solar.GetLunar", fieldDigest(calendar.NewLunarFromSolar(l.GetSolar())), fieldDigest(l))
+					ec2 := calendar.NewEightChar(l)
+					for _, sect := range []int{1, 2} {
+						ec.SetSect(sect)
+						ec2.SetSect(sect)
+						ne(fmt.Sprintf("NewEightChar vs Lunar.GetEightChar (sect %d)", sect),
+							ec2.String()+" "+ec2.GetDayDiShi()+ec2.GetTaiYuan()+ec2.GetTaiXi()+ec2.GetMingGong()+ec2.GetShenGong()+ec2.GetDayXun()+ec2.GetTimeShiShenGan()+fmt.Sprint(ec2.GetDayHideGan()),
+							ec.String()+" "+ec.GetDayDiShi()+ec.GetTaiYuan()+ec.GetTaiXi()+ec.GetMingGong()+ec.GetShenGong()+ec.GetDayXun()+ec.GetTimeShiShenGan()+fmt.Sprint(ec.GetDayHideGan()))
+					}
+					ec.SetSect(2)
+					ne("NewTaoFromLunar vs Lunar.GetTao", calendar.NewTaoFromLunar(l).ToFullString(), l.GetTao().ToFullString())
+					ne("NewFotoFromLunar vs Lunar.GetFoto", calendar.NewFotoFromLunar(l).ToFullString(), l.GetFoto().ToFullString())
+				}); p {
+					w.Viol("C11:twin-constructors:panic", "panic at "+wit+": "+msg, wit)
+				}
 				// ---- 3. deprecated aliases
 				ne("alias.GetGan", l.GetGan(), l.GetYearGan())
 				ne("alias.GetZhi", l.GetZhi(), l.GetYearZhi())
